@@ -7,6 +7,7 @@ wt = '/tmp/seed/' + pid
 import os
 ideas = json.load(open('/tmp/seed_ideas.json')).get(pid, []) if rnd != '1' and os.path.exists('/tmp/seed_ideas.json') else []
 avoid = ('\n\nAn earlier round already produced the following changes for this property; yours must be DIFFERENT in mechanism and code site (do not repeat or vary these):\n' + '\n'.join('  - ' + i for i in ideas)) if ideas else ''
+extra = ('\n\nPrefer changes whose trigger is an everyday-but-rarely-tested input class or usage pattern rather than an exotic one: other dtypes (integer, bool, float32, narrow ints), label types (strings, floats, dates as ints, negative or very large numbers, mixed case), containers (lists vs arrays vs tuples, pandas objects), memory layouts (Fortran order, views, non-contiguous slices), sizes (1, 2, >16, >255 items), value scales (very small or very large units), objects produced by earlier library calls (subsets, bootstrap samples, merged or reloaded objects), options given as None / default vs explicit, repeated calls on the same objects, or several cooperating steps. Aim for a change that a careful reviewer could plausibly approve.') if rnd not in ('1', '2', '3') else ''
 p = [json.loads(l) for l in open('/verif/properties.jsonl') if json.loads(l)['id'] == pid][0]
 print(f"""You are testing how well a semantic property of the Python library rsatoolbox (Representational Similarity Analysis) is guarded. You have your own scratch git worktree of the library at {wt} (source in {wt}/src/rsatoolbox, tests in {wt}/tests). Work ONLY inside {wt}; never read or write /repo or /verif or any other directory outside {wt} (reading the installed third-party packages under /venv is fine). The interpreter is /venv/bin/python; run code against your worktree with PYTHONPATH={wt}/src (check that rsatoolbox.__file__ points into your worktree). There is no network.
 
@@ -18,7 +19,7 @@ STATEMENT: {p['statement']}
 
 QUANTIFIED OVER: {p['quantifier']['text']}
 
-Your task: produce TWO independent, realistic changes to the library source (each its own patch, touching different mechanisms or code sites) that BREAK this property while the library still imports and the existing test suite still passes completely. Think of the kind of regression a well-meaning refactoring, optimisation or 'small cleanup' could introduce. Each change must need something specific to manifest - an unusual but valid input (particular sizes, label types or orders, ties, unbalanced designs, NaN positions, option combinations), a multi-step sequence of operations, or two cooperating code sites that each look fine alone - NOT something that ordinary use or the most basic call would expose at once. Do not edit tests, do not add files to the package, do not touch the compiled extension (src/rsatoolbox/cengine/*.so, *.pyx, *.c); change only .py files under src/rsatoolbox. Keep each change small (a few lines).{avoid}
+Your task: produce TWO independent, realistic changes to the library source (each its own patch, touching different mechanisms or code sites) that BREAK this property while the library still imports and the existing test suite still passes completely. Think of the kind of regression a well-meaning refactoring, optimisation or 'small cleanup' could introduce. Each change must need something specific to manifest - an unusual but valid input (particular sizes, label types or orders, ties, unbalanced designs, NaN positions, option combinations), a multi-step sequence of operations, or two cooperating code sites that each look fine alone - NOT something that ordinary use or the most basic call would expose at once. Do not edit tests, do not add files to the package, do not touch the compiled extension (src/rsatoolbox/cengine/*.so, *.pyx, *.c); change only .py files under src/rsatoolbox. Keep each change small (a few lines). Never use `git stash` (the stash is shared between worktrees); undo a change with `git -C {wt} checkout -- src`.{extra}{avoid}
 
 For each change i in (1, 2) deliver, inside {wt}/seed/:
   - change<i>.diff : unified diff produced with `git -C {wt} diff -- src > seed/change<i>.diff` (relative to the repo root, applies with `git apply`), containing only that change;
